@@ -106,14 +106,40 @@ theorem outOfFuel_dead {α : Type} (x : α) (s : PState) : dead (run 0 (outOfFue
 
 /-! ### consuming tokens -/
 
+/-- between `a` and `a'` exactly the significant tokens `used` were consumed, and no EOF token -/
+structure Ate (a a' : AS) (used : List Token) : Prop where
+  σ : a.σ = Stream.app used a'.σ
+  cnt : a'.cnt = a.cnt
+
+theorem Ate.nil (a : AS) : Ate a a [] := ⟨rfl, rfl⟩
+theorem Ate.peeked (a : AS) : Ate a { a with pk := true } [] := ⟨rfl, rfl⟩
+
+theorem Ate.trans {a b c : AS} {u v : List Token} (h1 : Ate a b u) (h2 : Ate b c v) : Ate a c (u ++ v) :=
+  ⟨by rw [Stream.app_append, ← h2.σ]; exact h1.σ, by rw [h2.cnt, h1.cnt]⟩
+
+theorem Stream.NoEof.app_toks {ts : List Token} {σ : Stream} (h : Stream.NoEof (Stream.app ts σ)) : ∀ t ∈ ts, TokOK t := by
+  induction ts with
+  | nil => intro t ht; cases ht
+  | cons u ts ih =>
+    intro t ht
+    rcases List.mem_cons.1 ht with rfl | ht
+    · exact h.1.2
+    · exact ih h.2 t ht
+
+theorem Ate.noEof {a a' : AS} {used : List Token} (h : Ate a a' used) (hn : a.σ.NoEof) : a'.σ.NoEof := by
+  have := h.σ ▸ hn; exact this.of_app
+
+theorem Ate.tokOK {a a' : AS} {used : List Token} (h : Ate a a' used) (hn : a.σ.NoEof) : ∀ t ∈ used, TokOK t := by
+  have := h.σ ▸ hn; exact this.app_toks
+
 /-- `used` was consumed, no EOF was consumed, and `P result used` -/
 def Eats {α : Type} (P : α → List Token → Prop) : α → AS → AS → Prop :=
-  fun x a a' => ∃ used, a.σ = Stream.app used a'.σ ∧ a'.cnt = a.cnt ∧ P x used
+  fun x a a' => ∃ used, Ate a a' used ∧ P x used
 
 theorem Eats.mono {α : Type} {P Q : α → List Token → Prop} (h : ∀ x u, P x u → Q x u) {x : α} {a a' : AS}
     (e : Eats P x a a') : Eats Q x a a' := by
-  obtain ⟨u, h1, h2, h3⟩ := e
-  exact ⟨u, h1, h2, h _ _ h3⟩
+  obtain ⟨u, h1, h3⟩ := e
+  exact ⟨u, h1, h _ _ h3⟩
 
 theorem Stream.cons_of_head {σ : Stream} (h : σ.NoEof) (h1 : σ.head.kind ≠ .eof) (h2 : σ.head.kind ≠ .invalid) :
     ∃ σ', σ = .cons σ.head σ' := by
@@ -123,22 +149,28 @@ theorem Stream.cons_of_head {σ : Stream} (h : σ.NoEof) (h1 : σ.head.kind ≠ 
   | cons t σ => exact ⟨σ, rfl⟩
 
 theorem Stream.cons_of_kind {σ : Stream} {k : Kind} (h : σ.NoEof) (hk : σ.head.kind = k) (h1 : k ≠ .eof)
-    (h2 : k ≠ .invalid) : ∃ t σ', σ = .cons t σ' ∧ t.kind = k := by
+    (h2 : k ≠ .invalid) : ∃ t σ', σ = .cons t σ' ∧ t.kind = k ∧ t = σ.head := by
   obtain ⟨σ', hσ⟩ := Stream.cons_of_head h (by rw [hk]; exact h1) (by rw [hk]; exact h2)
-  exact ⟨_, _, hσ, hk⟩
+  exact ⟨_, _, hσ, hk, rfl⟩
 
-theorem Stream.NoEof.tail {t : Token} {σ : Stream} (h : Stream.NoEof (.cons t σ)) : σ.NoEof := h.2
+/-- `next` on a filled look-ahead whose token has kind `k`: exactly that token is consumed -/
+theorem next_eats {a a' : AS} {t : Token} {k : Kind} (hne : a.σ.NoEof) (hpk : a.pk = true) (hk : a.σ.head.kind = k)
+    (h1 : k ≠ .eof) (h2 : k ≠ .invalid)
+    (hn : a.pk = true → ∀ u σ', a.σ = .cons u σ' → t = u ∧ a' = { pk := false, σ := σ', cnt := a.cnt }) :
+    t = a.σ.head ∧ Ate a a' [t] ∧ TokOK t := by
+  obtain ⟨u, σ', hσ, _, hu⟩ := Stream.cons_of_kind hne hk h1 h2
+  obtain ⟨rfl, rfl⟩ := hn hpk _ _ hσ
+  exact ⟨hu, ⟨hσ, rfl⟩, by rw [hσ] at hne; exact hne.1.2⟩
 
 /-- `expect k` -/
 theorem spec_expect (k : Kind) (hk : k ≠ .eof) (hk' : k ≠ .invalid) :
-    Spec (expect k) (Eats fun t used => used = [t] ∧ t.kind = k) := by
+    Spec (expect k) (Eats fun t used => used = [t] ∧ t.kind = k ∧ TokOK t) := by
   unfold expect
   refine (Spec.bind spec_peek fun tok => Spec.ite (fun _ => spec_next)
     (fun _ => Spec.of_dead_bind (R := fun _ _ _ => False) (failAt_dead _ _))).mono ?_
   rintro t a a'' hne ⟨tok, a', ⟨rfl, rfl⟩, ⟨hkk, hn⟩ | ⟨_, hf⟩⟩
-  · obtain ⟨σ', hσ⟩ := Stream.cons_of_head hne (by rw [hkk]; exact hk) (by rw [hkk]; exact hk')
-    obtain ⟨rfl, rfl⟩ := hn rfl _ _ hσ
-    exact ⟨[_], hσ, rfl, rfl, hkk⟩
+  · obtain ⟨e1, e2, e3⟩ := next_eats (a := { a with pk := true }) hne rfl hkk hk hk' hn
+    exact ⟨[_], ⟨e2.σ, e2.cnt⟩, rfl, e1 ▸ hkk, e3⟩
   · exact hf.elim
 
 /-- `expectKeyword v` -/
@@ -148,14 +180,13 @@ theorem spec_expectKeyword (v : Bytes) :
   refine (Spec.bind spec_peek fun tok => Spec.ite (fun _ => spec_next)
     (fun _ => Spec.of_dead_bind (R := fun _ _ _ => False) (failAt_dead _ _))).mono ?_
   rintro t a a'' hne ⟨tok, a', ⟨rfl, rfl⟩, ⟨hkk, hn⟩ | ⟨_, hf⟩⟩
-  · obtain ⟨σ', hσ⟩ := Stream.cons_of_head hne (by rw [hkk.1]; decide) (by rw [hkk.1]; decide)
-    obtain ⟨rfl, rfl⟩ := hn rfl _ _ hσ
-    exact ⟨[_], hσ, rfl, rfl, hkk⟩
+  · obtain ⟨e1, e2, e3⟩ := next_eats (a := { a with pk := true }) (k := .name) hne rfl hkk.1 (by decide) (by decide) hn
+    exact ⟨[_], ⟨e2.σ, e2.cnt⟩, rfl, e1 ▸ hkk⟩
   · exact hf.elim
 
 /-- `skip k`: either the next token is of kind `k` and is consumed, or nothing happens -/
 def Skips (k : Kind) : Bool → AS → AS → Prop := fun b a a' =>
-  (b = true ∧ ∃ t, Eats (fun (_ : Unit) used => used = [t] ∧ t.kind = k) () a a') ∨
+  (b = true ∧ ∃ t, Ate a a' [t] ∧ t.kind = k ∧ TokOK t) ∨
   (b = false ∧ a.σ.head.kind ≠ k ∧ a' = { a with pk := true })
 
 theorem spec_skip (k : Kind) (hk : k ≠ .eof) (hk' : k ≠ .invalid) : Spec (skip k) (Skips k) := by
@@ -167,9 +198,8 @@ theorem spec_skip (k : Kind) (hk : k ≠ .eof) (hk' : k ≠ .invalid) : Spec (sk
   · cases he
   · exact .inr ⟨rfl, hkk, rfl⟩
   · simp only [ne_eq, Decidable.not_not] at hkk
-    obtain ⟨σ', hσ⟩ := Stream.cons_of_head hne (by rw [hkk]; exact hk) (by rw [hkk]; exact hk')
-    obtain ⟨rfl, rfl⟩ := hn rfl _ _ hσ
-    exact .inl ⟨rfl, _, [_], hσ, rfl, rfl, hkk⟩
+    obtain ⟨e1, e2, e3⟩ := next_eats (a := { a' with pk := true }) hne rfl hkk hk hk' hn
+    exact .inl ⟨rfl, _, ⟨e2.σ, e2.cnt⟩, e1 ▸ hkk, e3⟩
 
 /-- `peekPos`: fills the look-ahead; the position is that of the first significant token ahead -/
 theorem spec_peekPos : Spec peekPos (fun pos a a' => a' = { a with pk := true } ∧ pos.start = a.σ.head.start) := by
@@ -202,7 +232,7 @@ theorem Many.mono {α : Type} {P Q : α → List Token → Prop} (h : ∀ x u, P
 theorem spec_itemsLoop {α : Type} {P : α → List Token → Prop} (stop : Kind) {cb : Prog α} (hcb : Spec cb (Eats P))
     (n : Nat) (acc : List α) :
     Spec (itemsLoop stop cb n acc) (fun xs a a' => ∃ items used, xs = items.reverse ++ acc ∧
-      a.σ = Stream.app used a'.σ ∧ a'.cnt = a.cnt ∧ Many P items used ∧ a'.pk = true ∧ a'.σ.head.kind = stop) := by
+      Ate a a' used ∧ Many P items used ∧ a'.pk = true ∧ a'.σ.head.kind = stop) := by
   induction n generalizing acc with
   | zero => exact Spec.of_dead (outOfFuel_dead _)
   | succ n ih =>
@@ -210,10 +240,9 @@ theorem spec_itemsLoop {α : Type} {P : α → List Token → Prop} (stop : Kind
     refine (Spec.bind spec_peek fun t => Spec.bind spec_hasErr fun e => Spec.ite
       (fun _ => Spec.bind hcb fun x => ih (x :: acc)) (fun _ => Spec.pure acc)).mono ?_
     rintro xs a a'' _ ⟨t, a1, ⟨rfl, rfl⟩, e, a2, ⟨rfl, rfl⟩,
-      ⟨_, x, a3, ⟨u, h1, h2, h3⟩, items, used, rfl, h4, h5, h6, h7, h8⟩ | ⟨hc, rfl, rfl⟩⟩
-    · refine ⟨x :: items, u ++ used, by simp, ?_, by rw [h5, h2], .cons h3 h6, h7, h8⟩
-      rw [Stream.app_append, ← h4]; exact h1
-    · refine ⟨[], [], rfl, rfl, rfl, .nil, rfl, ?_⟩
+      ⟨_, x, a3, ⟨u, h1, h3⟩, items, used, rfl, h4, h6, h7, h8⟩ | ⟨hc, rfl, rfl⟩⟩
+    · exact ⟨x :: items, u ++ used, by simp, (Ate.peeked a).trans (h1.trans h4), .cons h3 h6, h7, h8⟩
+    · refine ⟨[], [], rfl, Ate.peeked a, .nil, rfl, ?_⟩
       simpa using hc
 
 /-- the shape of `many` / `some`: nothing (the opening token is not there), or
@@ -221,7 +250,23 @@ theorem spec_itemsLoop {α : Type} {P : α → List Token → Prop} (stop : Kind
 def Bracketed {α : Type} (P : α → List Token → Prop) (start stop : Kind) : List α → AS → AS → Prop :=
   fun xs a a' =>
     (xs = [] ∧ a.σ.head.kind ≠ start ∧ a' = { a with pk := true }) ∨
-    Eats (fun xs used => ∃ t1 mid t2, used = t1 :: mid ++ [t2] ∧ t1.kind = start ∧ t2.kind = stop ∧ Many P xs mid) xs a a'
+    (a.σ.head.kind = start ∧
+      Eats (fun xs used => ∃ t1 mid t2, used = t1 :: mid ++ [t2] ∧ t1.kind = start ∧ t2.kind = stop ∧
+        TokOK t1 ∧ TokOK t2 ∧ Many P xs mid) xs a a')
+
+theorem bracketed_tail {α : Type} {P : α → List Token → Prop} {start stop : Kind} (h2 : stop ≠ .eof) (h2' : stop ≠ .invalid)
+    {a a1 a2 a3 : AS} {t1 t2 : Token} {items : List α} {used : List Token} (hne : a.σ.NoEof)
+    (e1 : Ate a a1 [t1]) (e4 : t1.kind = start) (e5 : TokOK t1) (g1 : Ate a1 a2 used) (g3 : Many P items used)
+    (g4 : a2.pk = true) (g5 : a2.σ.head.kind = stop)
+    (hn : a2.pk = true → ∀ u σ', a2.σ = .cons u σ' → t2 = u ∧ a3 = { pk := false, σ := σ', cnt := a2.cnt }) :
+    a.σ.head.kind = start ∧
+    Eats (fun xs used => ∃ t1 mid t2, used = t1 :: mid ++ [t2] ∧ t1.kind = start ∧ t2.kind = stop ∧
+      TokOK t1 ∧ TokOK t2 ∧ Many P xs mid) items a a3 := by
+  have hne2 : a2.σ.NoEof := g1.noEof (e1.noEof hne)
+  obtain ⟨q1, q2, q3⟩ := next_eats hne2 g4 g5 h2 h2' hn
+  refine ⟨by rw [e1.σ]; exact e4, t1 :: used ++ [t2], ?_, t1, used, t2, rfl, e4, q1 ▸ g5, e5, q3, g3⟩
+  have := e1.trans (g1.trans q2)
+  simpa using this
 
 theorem spec_pMany {α : Type} {P : α → List Token → Prop} (start stop : Kind) (h1 : start ≠ .eof) (h1' : start ≠ .invalid)
     (h2 : stop ≠ .eof) (h2' : stop ≠ .invalid) (n : Nat) {cb : Prog α} (hcb : Spec cb (Eats P)) :
@@ -229,20 +274,12 @@ theorem spec_pMany {α : Type} {P : α → List Token → Prop} (start stop : Ki
   unfold pMany
   refine (Spec.bind (spec_skip start h1 h1') fun b => Spec.ite (fun _ => Spec.pure [])
     (fun _ => Spec.bind (spec_itemsLoop stop hcb n []) fun xs => Spec.bind spec_next fun _ => Spec.pure xs.reverse)).mono ?_
-  rintro xs a a'' _ ⟨b, a1, hs, ⟨hb, rfl, rfl⟩ | ⟨hb, ys, a2, ⟨items, used, rfl, g1, g2, g3, g4, g5⟩, t2, a3, hn, rfl, rfl⟩⟩
+  rintro xs a a'' hne ⟨b, a1, hs, ⟨hb, rfl, rfl⟩ | ⟨hb, ys, a2, ⟨items, used, rfl, g1, g3, g4, g5⟩, t2, a3, hn, rfl, rfl⟩⟩
   · rcases hs with ⟨rfl, _⟩ | ⟨_, hk, rfl⟩
     · simp at hb
     · exact .inl ⟨rfl, hk, rfl⟩
-  · rcases hs with ⟨_, t1, u1, e1, e2, rfl, e4⟩ | ⟨rfl, _⟩
-    · have hne2 : a2.σ.NoEof := by
-        have : a1.σ.NoEof := by
-          have := ‹a.σ.NoEof›; rw [e1] at this; exact this.2
-        rw [g1] at this; exact this.of_app
-      obtain ⟨t2', σ', hσ, hk2⟩ := Stream.cons_of_kind hne2 g5 h2 h2'
-      obtain ⟨rfl, rfl⟩ := hn g4 _ _ hσ
-      refine .inr ⟨t1 :: used ++ [t2], ?_, by simp [g2, e2], t1, used, _, rfl, e4, hk2, by simpa using g3⟩
-      rw [e1, g1, hσ]
-      simp [Stream.app, Stream.app_append]
+  · rcases hs with ⟨_, t1, e1, e4, e5⟩ | ⟨rfl, _⟩
+    · exact Or.inr (by simpa using bracketed_tail h2 h2' hne e1 e4 e5 g1 g3 g4 g5 hn)
     · simp at hb
 
 theorem spec_pSome {α : Type} {P : α → List Token → Prop} (start stop : Kind) (h1 : start ≠ .eof) (h1' : start ≠ .invalid)
@@ -254,23 +291,15 @@ theorem spec_pSome {α : Type} {P : α → List Token → Prop} (start stop : Ki
       (fun _ => Spec.bind spec_peek fun _ => Spec.bind spec_peek fun _ =>
         Spec.of_dead_bind (R := fun _ _ _ => False) (failAt_dead _ _))
       (fun _ => Spec.bind spec_next fun _ => Spec.pure xs.reverse))).mono ?_
-  rintro xs a a'' _ ⟨b, a1, hs, ⟨hb, rfl, rfl⟩ | ⟨hb, ys, a2, ⟨items, used, rfl, g1, g2, g3, g4, g5⟩,
-    ⟨_, _, _, _, _, _, _, hf⟩ | ⟨hne, t2, a3, hn, rfl, rfl⟩⟩⟩
+  rintro xs a a'' hne ⟨b, a1, hs, ⟨hb, rfl, rfl⟩ | ⟨hb, ys, a2, ⟨items, used, rfl, g1, g3, g4, g5⟩,
+    ⟨_, _, _, _, _, _, _, hf⟩ | ⟨hne', t2, a3, hn, rfl, rfl⟩⟩⟩
   · rcases hs with ⟨rfl, _⟩ | ⟨_, hk, rfl⟩
     · simp at hb
     · exact ⟨.inl ⟨rfl, hk, rfl⟩, fun h => absurd h hk⟩
   · exact hf.elim
-  · rcases hs with ⟨_, t1, u1, e1, e2, rfl, e4⟩ | ⟨rfl, _⟩
-    · have hne2 : a2.σ.NoEof := by
-        have : a1.σ.NoEof := by
-          have := ‹a.σ.NoEof›; rw [e1] at this; exact this.2
-        rw [g1] at this; exact this.of_app
-      obtain ⟨t2', σ', hσ, hk2⟩ := Stream.cons_of_kind hne2 g5 h2 h2'
-      obtain ⟨rfl, rfl⟩ := hn g4 _ _ hσ
-      refine ⟨.inr ⟨t1 :: used ++ [t2], ?_, by simp [g2, e2], t1, used, _, rfl, e4, hk2, by simpa using g3⟩, ?_⟩
-      · rw [e1, g1, hσ]
-        simp [Stream.app, Stream.app_append]
-      · intro _; simpa using hne
+  · rcases hs with ⟨_, t1, e1, e4, e5⟩ | ⟨rfl, _⟩
+    · refine ⟨Or.inr (by simpa using bracketed_tail h2 h2' hne e1 e4 e5 g1 g3 g4 g5 hn), ?_⟩
+      intro _; simpa using hne'
     · simp at hb
 
 end Gql.Parser
